@@ -169,6 +169,7 @@ func runChild(h handler, prop, cases, out string, seed int64, tier string, worke
 	sc := bufio.NewScanner(f)
 	sc.Buffer(make([]byte, 1<<20), 64<<20)
 	n := 0
+	var mine []Case
 	for sc.Scan() {
 		line := sc.Bytes()
 		if len(line) == 0 {
@@ -186,6 +187,15 @@ func runChild(h handler, prop, cases, out string, seed int64, tier string, worke
 		if c.ID == 0 {
 			c.ID = n
 		}
+		mine = append(mine, c)
+	}
+	if reverseOrder {
+		// the same cases in the opposite order (C11: results must not depend on earlier calls)
+		for i, j := 0, len(mine)-1; i < j; i, j = i+1, j-1 {
+			mine[i], mine[j] = mine[j], mine[i]
+		}
+	}
+	for _, c := range mine {
 		evs := h(c, e)
 		st.Runs++
 		st.Events += len(evs)
@@ -238,6 +248,9 @@ func cmdShow(args []string) int {
 	}
 	return 0
 }
+
+// reverseOrder (env VDRIVE_REVERSE=1): process the cases in reverse order and shift run ids by 500.
+var reverseOrder = os.Getenv("VDRIVE_REVERSE") == "1"
 
 // showInputs makes handlers attach the concrete input to the Call event.
 var showInputs = false
